@@ -346,7 +346,7 @@ func runStopRTBatch(c *rig.Ctx, cases []Case) {
 		wg.Add(1)
 		go func(cs Case) {
 			defer wg.Done()
-			if runStopRT(c, cs, mode{record: true, count: true}) == violates {
+			if runCaseRT(c, cs) == violates {
 				atomic.AddInt32(&rtViolations, 1)
 			}
 		}(cs)
@@ -355,3 +355,17 @@ func runStopRTBatch(c *rig.Ctx, cases []Case) {
 }
 
 var rtViolations int32
+
+func runCaseRT(c *rig.Ctx, cs Case) int {
+	if cs.Kind == "overlap" {
+		return runOverlap(c, cs, mode{record: true, count: true})
+	}
+	return runStopRT(c, cs, mode{record: true, count: true})
+}
+
+// overlapRT: the schedule of an orphaned store in real time (flush period 20 ms): after the final loss the API must
+// become quiet.
+func overlapRT(n int64) Case {
+	return Case{Kind: "overlap", N: n, PeriodMs: 20, OOps: []OOp{{Op: "begin"}, {Op: "lose"}, {Op: "begin"}, {Op: "ok", ID: 1}, {Op: "alloc"},
+		{Op: "fail", ID: 0}, {Op: "alloc"}, {Op: "lose"}}}
+}
